@@ -505,16 +505,30 @@ func (tp *ethTxPool) demoteUnexecutables() {
 
 		if accountTxs.Len() == 0 {
 			delete(tp.pending, addr)
-		} else if accountTxs.Len() > 0 && accountTxs.Get(nonce) == nil {
-			// If there's a gap in front, alert (should never happen) and postpone all transactions
-			for _, tx := range accountTxs.items {
-				log.Warn("Demoting invalidated transaction", zap.String("hash", tx.Hash().Hex()))
-				if err := tp.addWaiting(tx, addr); err != nil {
-					// demote pending to waiting failed, waiting queue maybe full, delete tx
-					delete(tp.all, tx.Hash())
-				}
+			continue
+		}
+		// Only the run of consecutive nonces that starts at the account's nonce is executable. A gap (in front,
+		// or further back since Update drops the transactions of a committed block) postpones everything after it.
+		next := nonce
+		for accountTxs.Get(next) != nil {
+			next++
+		}
+		if int(next-nonce) == accountTxs.Len() {
+			continue
+		}
+		for txNonce, tx := range accountTxs.items {
+			if txNonce < next {
+				continue
 			}
-			// Delete the entire queue entry if it became empty.
+			log.Warn("Demoting invalidated transaction", zap.String("hash", tx.Hash().Hex()))
+			accountTxs.Remove(txNonce)
+			if err := tp.addWaiting(tx, addr); err != nil {
+				// demote pending to waiting failed, waiting queue maybe full, delete tx
+				delete(tp.all, tx.Hash())
+			}
+		}
+		// Delete the entire queue entry if it became empty.
+		if accountTxs.Len() == 0 {
 			delete(tp.pending, addr)
 		}
 	}
